@@ -238,6 +238,16 @@ def v_mod(a, b):
     return V(bor(a.null, b.null, y == 0), trunc_rem(x, y), "int")
 
 
+POW = z3.Function("pow", z3.RealSort(), z3.RealSort(), z3.RealSort())
+
+
+@_prop
+def v_pow(base, exp):
+    """exponentiation as an uninterpreted function (same symbol on both sides): checks which operands reach
+    POW and how they group, not the numeric value"""
+    return V(bor(base.null, exp.null), POW(real_of(num(base)), real_of(num(exp))), "real")
+
+
 @_prop
 def v_neg(a):
     a = as_num(a)
